@@ -19,6 +19,7 @@ results that went through the real math.sqrt/cos/sin are floats and are compared
 """
 import functools
 import hashlib
+import importlib.util
 import math
 import operator
 import time
@@ -388,6 +389,46 @@ def ob_swizzle(sp, n):
         expect(sp, r, [v[i] for i in idx], 'v.%s' % name, VEC[L])
 
 
+def _fresh_math():
+    """A private second copy of desper/math.py (own classes, own module-level state), so that what an
+    obligation observes does not depend on which other obligations ran earlier in this worker process."""
+    spec = importlib.util.spec_from_file_location('desper_math_private_copy', dm.__file__)
+    mod = importlib.util.module_from_spec(spec)
+    spec.loader.exec_module(mod)
+    return mod
+
+
+SHARED_NAMES = ['xz', 'zyx', 'xyzw', 'wx', 'yzw', 'zw']
+_MISSING = object()
+
+
+def ob_swizzle_shared(sp, n=0):
+    """One name looked up on vectors of all three classes, in both orders: a name with z (w) is a swizzle of
+    Vec3/Vec4 (Vec4) whatever was asked of the smaller classes before, and stays absent on the smaller ones
+    whatever the bigger ones answered before (state shared between the classes)."""
+    m = _fresh_math()
+    cls = {2: m.Vec2, 3: m.Vec3, 4: m.Vec4}
+    vs = {k: cls[k](*[real(sp, 'v%d.%s' % (k, AXES[i])) for i in range(k)]) for k in (2, 3, 4)}
+    name = SHARED_NAMES[sp.choose(len(SHARED_NAMES), 'name')]
+    small_first = sp.choose(2, 'order') == 0
+    need = 4 if 'w' in name else 3
+    sp.cover('small-class-first' if small_first else 'big-class-first')
+
+    def small():
+        for k in range(2, need):
+            r = call(sp, 'getattr(Vec%d(...), %r, <missing>)' % (k, name), lambda: getattr(vs[k], name, _MISSING))
+            check(sp, r is _MISSING and not hasattr(vs[k], name), 'not-a-component',
+                  'Vec%d has no component %s, yet .%s is an attribute' % (k, 'w' if need == 4 and k == 3 else 'z/w', name))
+
+    def big():
+        for k in range(need, 5):
+            r = call(sp, 'Vec%d(...).%s' % (k, name), lambda: getattr(vs[k], name))
+            expect(sp, r, [vs[k][AXES.index(c)] for c in name], 'Vec%d(...).%s' % (k, name), cls[len(name)])
+
+    for step in ((small, big) if small_first else (big, small)):
+        step()
+
+
 # ---------------------------------------------------------------------------------------- matrices
 def ob_mat_add(sp, n):
     A, B = mat(sp, n, 'A'), mat(sp, n, 'B')
@@ -460,6 +501,21 @@ def ob_inverse(sp, n=4):
         expect(sp, tuple(ref_matmul(inv, M, 4)), ref_identity(4), '~M @ M (det(M) != 0)')
 
 
+def ob_inverse_temporaries(sp, n=4, reps=6):
+    """~M for matrices that only live as temporaries, one after the other (each is freed before the next
+    is built, so CPython hands the next one the same address): every result is the inverse of *its* matrix.
+    Structured matrices (translations, determinant 1) keep the queries linear."""
+    ts = [vec(sp, 3, 't%d' % k) for k in range(reps)]
+    invs = []
+    for k in range(reps):
+        invs.append(call(sp, '~Mat4.from_translation(t%d)' % k, lambda: ~Mat4.from_translation(ts[k])))
+    for k in range(reps):
+        M = [1, 0, 0, 0, 0, 1, 0, 0, 0, 0, 1, 0, ts[k][0], ts[k][1], ts[k][2], 1]
+        check(sp, type(invs[k]) is Mat4 and len(invs[k]) == 16, 'result-type', '~M is not a Mat4')
+        expect(sp, tuple(ref_matmul(M, invs[k], 4)), ref_identity(4), 'M%d @ ~M%d (translation by t%d)' % (k, k, k))
+        expect(sp, tuple(ref_matmul(invs[k], M, 4)), ref_identity(4), '~M%d @ M%d (translation by t%d)' % (k, k, k))
+
+
 def _point(sp):
     return [real(sp, 'p.' + a) for a in AXES]
 
@@ -527,7 +583,8 @@ def _mat_obs(n):
            ('matvec', ob_matvec), ('assoc', ob_assoc), ('identity', ob_identity), ('law', ob_law)]
     if n == 4:
         obs += [('transpose', ob_transpose), ('inverse', ob_inverse), ('from_translation', ob_from_translation),
-                ('from_scale', ob_from_scale), ('translate', ob_translate), ('ortho', ob_ortho)]
+                ('from_scale', ob_from_scale), ('translate', ob_translate), ('ortho', ob_ortho),
+                ('inverse_temporaries', ob_inverse_temporaries)]
     return [('mat%d.%s' % (n, k), functools.partial(f, n=n)) for k, f in obs]
 
 
@@ -537,7 +594,8 @@ OBLIGATIONS = {
     'vec4': _vec_obs(4),
     'mat3': _mat_obs(3),
     'mat4': _mat_obs(4),
-    'swizzle': [('swizzle.vec%d' % n, functools.partial(ob_swizzle, n=n)) for n in (2, 3, 4)],
+    'swizzle': [('swizzle.vec%d' % n, functools.partial(ob_swizzle, n=n)) for n in (2, 3, 4)] +
+               [('swizzle.shared', ob_swizzle_shared)],
 }
 N_OBLIGATIONS = sum(len(v) for v in OBLIGATIONS.values())
 
@@ -644,6 +702,7 @@ _EXTRA_TAGS = {
     'mat4.inverse': ['singular', 'nonsingular'],
     'swizzle.vec2': ['swizzle', 'component'], 'swizzle.vec3': ['swizzle', 'component'],
     'swizzle.vec4': ['swizzle', 'component'],
+    'swizzle.shared': ['small-class-first', 'big-class-first'],
 }
 HARNESSES = {ob: dict(kind='custom', fn=functools.partial(_entry, ob=ob), nonlinear=True, concolic=True,
                       timeout_ms=30000, nontrivial=['end'], required=['end'] + _EXTRA_TAGS.get(ob, []))
@@ -687,6 +746,9 @@ ASSUMPTIONS = [
     'orthogonal_projection: right != left, top != bottom, z_far != z_near; "the stated transform" is glOrtho '
     '(the box [l,r]x[b,t]x[-near,-far] goes to the cube [-1,1]^3), checked on a symbolic homogeneous point',
     'singular Mat4: "unchanged" accepts M itself or an entrywise equal matrix; at least one warning is demanded',
+    'a name containing z (w) is not an attribute of a Vec2 (Vec2/Vec3): checked only in swizzle.shared, where the same '
+    'name is looked up on all three classes in both orders, on a private copy of the module',
+    'inverse_temporaries relies on CPython reusing the address of a just-freed Mat4 (6 temporaries in a row)',
     'results are checked to be of the natural class (Vec_n / Mat_n); swizzles of length L give a Vec_L',
 ]
 OUTSIDE = [
